@@ -374,16 +374,16 @@ def nextTime (sc : Scen) (d : DState) : Option Nat :=
 
 /-- explore all executions; returns (final outcomes, overflow) -/
 def exploreN (sc : Scen) (limit : Nat) (ob : Option Obs := none) : List String Ã— Bool Ã— Nat := Id.run do
-  let mut stack : List DState := [{ s := init }]
+  let d0 : DState := { s := init }
+  let mut stack : List (List Nat Ã— DState) := [(keyOf sc d0, d0)]
   let mut seen : Std.HashSet (List Nat) := {}
   let mut finals : Std.HashSet String := {}
   let mut n := 0
   for _ in [0:limit] do
     match stack with
     | [] => break
-    | d :: rest =>
+    | (key, d) :: rest =>
       stack := rest
-      let key := keyOf sc d
       if seen.contains key then continue
       seen := seen.insert key
       n := n + 1
@@ -391,12 +391,16 @@ def exploreN (sc : Scen) (limit : Nat) (ob : Option Obs := none) : List String Ã
         if !consistent sc o d then continue
       let nx := succs sc d
       if !nx.isEmpty then
-        stack := (nx.filter fun x => !seen.contains (keyOf sc x)) ++ stack
+        for x in nx do
+          let k := keyOf sc x
+          if !seen.contains k then stack := (k, x) :: stack
       else
         match nextTime sc d with
         | some t =>
           match step sc.cfg d.s (.advance t) with
-          | some s' => stack := { d with s := s' } :: stack
+          | some s' =>
+            let x := { d with s := s' }
+            stack := (keyOf sc x, x) :: stack
           | none => finals := finals.insert ("stuck-clock " ++ render sc d)
         | none => finals := finals.insert (render sc d)
   return (finals.toList, !stack.isEmpty, n)
